@@ -192,3 +192,25 @@ pub fn goal_indices_ok(corpus: Option<(&Corpus, usize)>, world: &World, kinds: &
 pub fn entry_of(world: &World) -> Option<usize> {
     world.source.strip_prefix("corpus:").and_then(|s| s.rsplit('#').next()).and_then(|n| n.parse().ok())
 }
+
+/// static signature tags of (world, goal): `+overlap`, `+co-reach`, `+implied-bound-cycle` (fragment worlds only)
+pub fn static_tags(world: &World, goal: usize) -> String {
+    let mut t = String::new();
+    if let Ok((prog, goals)) = crate::wgen::parse_world(world) {
+        if crate::wgen::has_overlapping_impls(&prog) {
+            t.push_str("+overlap");
+        }
+        if let Some(Ok(ast)) = goals.get(goal) {
+            let mut gp = vec![];
+            ast.preds(&mut gp);
+            let tainted = crate::wgen::co_tainted(&prog);
+            if gp.iter().any(|p| tainted.contains(&p.tr)) {
+                t.push_str("+co-reach");
+            }
+        }
+        if crate::wgen::implied_bound_cycle(&prog) {
+            t.push_str("+implied-bound-cycle");
+        }
+    }
+    t
+}
